@@ -318,6 +318,11 @@ func c03R2R5(c *Ctx) {
 				}
 			}
 			c.Check(okKey, "C03.R2", FuncName(rd)+"#key", P.InstrPos(call), "AEAD keyed with the key parameter", "the AEAD is not keyed with readPacketLocked's key parameter")
+			fresh := false
+			if nc, _ := fromCall(call.Call.Value); nc != nil && calleeID(nc) == hopID("kravatte", "", "NewSANSE") {
+				fresh = true
+			}
+			c.Check(fresh, "C03.R2", FuncName(rd)+"#fresh-aead", P.InstrPos(call), "a fresh SANSE instance per packet", "the AEAD instance that opens a packet is not created for that packet (kravatte SANSE is a stateful session mode: a cached instance absorbs every failed or missing datagram, so one forged, lost or reordered datagram makes all later genuine packets fail)")
 		}
 		// counter bytes inside the AD: readCounter(b) with b = pkt[HeaderLen+SessionIDLen:]
 		for _, cs := range callSitesIn(rd, false, hopID("transport", "SessionState", "readCounter")) {
@@ -357,6 +362,15 @@ func c03R2R5(c *Ctx) {
 		}
 	}
 	c.Check(okAD, "C03.R2", FuncName(wr)+"#ad", P.InstrPos(seal), "AD = rawWrite.Bytes()[:AssociatedDataLen]", "the associated data given to Seal is not the first AssociatedDataLen bytes of the packet being built")
+	{
+		fresh := false
+		if nc, _ := fromCall(seal.Call.Value); nc != nil && calleeID(nc) == hopID("kravatte", "", "NewSANSE") {
+			fresh = true
+			root, _ := accessPath(nc.Call.Args[0])
+			c.Check(paramIndex(wr, root) == 3, "C03.R2", FuncName(wr)+"#key", P.InstrPos(seal), "AEAD keyed with the key parameter", "the sealing AEAD is not keyed with sealPacketLocked's key parameter")
+		}
+		c.Check(fresh, "C03.R2", FuncName(wr)+"#fresh-aead", P.InstrPos(seal), "a fresh SANSE instance per packet", "the AEAD instance that seals a packet is not created for that packet (SANSE is a stateful session mode; sender and receiver would have to see identical datagram histories forever)")
+	}
 	// R5: plaintext parameter flows only into Seal (and len)
 	inParam := wr.Params[2]
 	leak := ""
